@@ -147,6 +147,64 @@ func c06(c *ctx) {
 		}
 		c06Seq(c, fmt.Sprintf("rand/%d", plen), base, plen, ops)
 	}
+	c06conc(c)
+	c06system(c)
+}
+
+// c06system: the pool on a running agent. Sessions come and go on a /29 (six addresses); the rule that made the UP allocate
+// the address is removed or updated without the UE IP Address IE before the session ends, establishments are refused
+// after the allocation: after every ending the pool holds exactly one address per live session that was given one.
+func c06system(c *ctx) {
+	r := c.rng
+	w, err := newWorld(c, sysh.Opts{UEAlloc: true, Pool: "10.250.3.0/29", ReadTimeout: 600})
+	if err != nil {
+		panic(err)
+	}
+	defer w.close()
+	w.cfgLine()
+	if !w.start() {
+		return
+	}
+	w.assoc(0)
+	var live []*hsess
+	for i := 0; i < c.pick(40, 600); i++ {
+		pdrs, fars, qers := w.genSession(2)
+		w.nextCP++
+		switch r.Intn(6) {
+		case 0: // refused after the address was allocated
+			pdrs = append(pdrs, sysh.PdrIE{ID: 9, Prec: 1, Src: u8p(3), Far: 1})
+		}
+		h, _ := w.est(0, w.nodes[0], w.nextCP, pdrs, fars, qers, "c06")
+		if h != nil {
+			live = append(live, h)
+			switch r.Intn(4) {
+			case 0:
+				w.mod(0, h.up, modReq{rp: []uint32{uint32(h.pdrs[1].ID)}}, "remove-allocating-pdr")
+			case 1:
+				p := h.pdrs[1]
+				p.UE = nil
+				w.mod(0, h.up, modReq{up: []sysh.PdrIE{p}}, "update-allocating-pdr-without-ue-ip")
+			}
+		}
+		// keep at most four sessions: the oldest ends (deletion, or the peer reports the context gone)
+		for len(live) > 0 && (len(live) > 4 || r.Intn(3) == 0) {
+			if r.Intn(4) == 0 {
+				w.endBy(0, "report65", live[0])
+			} else {
+				w.endBy(0, "delete", live[0])
+			}
+			live = live[1:]
+		}
+		w.stats("c06")
+	}
+	for _, h := range live {
+		w.endBy(0, "delete", h)
+	}
+	w.stats("c06-end")
+}
+
+// c06conc: the pool under concurrent callers (also run by C11: the pool is shared by all associations).
+func c06conc(c *ctx) {
 	// concurrent runs: G goroutines allocate distinct sessions at once, observed at quiescent points
 	for run := 0; run < c.pick(3, 50); run++ {
 		plen := []int{24, 26, 27}[run%3]
@@ -274,57 +332,4 @@ func c06(c *ctx) {
 		c.t.Case("conc/same-session", true, "same %d %d %d %d %d%s", base, plen, R, G, drained, sb.String())
 		_ = size
 	}
-	c06system(c)
-}
-
-// c06system: the pool on a running agent. Sessions come and go on a /29 (six addresses); the rule that made the UP allocate
-// the address is removed or updated without the UE IP Address IE before the session ends, establishments are refused
-// after the allocation: after every ending the pool holds exactly one address per live session that was given one.
-func c06system(c *ctx) {
-	r := c.rng
-	w, err := newWorld(c, sysh.Opts{UEAlloc: true, Pool: "10.250.3.0/29", ReadTimeout: 600})
-	if err != nil {
-		panic(err)
-	}
-	defer w.close()
-	w.cfgLine()
-	if !w.start() {
-		return
-	}
-	w.assoc(0)
-	var live []*hsess
-	for i := 0; i < c.pick(40, 600); i++ {
-		pdrs, fars, qers := w.genSession(2)
-		w.nextCP++
-		switch r.Intn(6) {
-		case 0: // refused after the address was allocated
-			pdrs = append(pdrs, sysh.PdrIE{ID: 9, Prec: 1, Src: u8p(3), Far: 1})
-		}
-		h, _ := w.est(0, w.nodes[0], w.nextCP, pdrs, fars, qers, "c06")
-		if h != nil {
-			live = append(live, h)
-			switch r.Intn(4) {
-			case 0:
-				w.mod(0, h.up, modReq{rp: []uint32{uint32(h.pdrs[1].ID)}}, "remove-allocating-pdr")
-			case 1:
-				p := h.pdrs[1]
-				p.UE = nil
-				w.mod(0, h.up, modReq{up: []sysh.PdrIE{p}}, "update-allocating-pdr-without-ue-ip")
-			}
-		}
-		// keep at most four sessions: the oldest ends (deletion, or the peer reports the context gone)
-		for len(live) > 0 && (len(live) > 4 || r.Intn(3) == 0) {
-			if r.Intn(4) == 0 {
-				w.endBy(0, "report65", live[0])
-			} else {
-				w.endBy(0, "delete", live[0])
-			}
-			live = live[1:]
-		}
-		w.stats("c06")
-	}
-	for _, h := range live {
-		w.endBy(0, "delete", h)
-	}
-	w.stats("c06-end")
 }
